@@ -396,6 +396,58 @@ pub fn run(ctx: &mut Ctx) {
         }
     });
 
+    // ------------------------------------------------ the structure at the start of a buffer of 2^31 / 2^32 bytes and a few bytes
+    // around (lazily mapped zero pages; availability computed in i32 / u32): value and remainder as without it
+    ctx.floor("giant-trailing.cases", 20);
+    ctx.sweep("giant-trailing", 8, |ctx, idx| {
+        let mut r = Rng::new(idx ^ 0x6147);
+        let total: usize = [(1usize << 31) - 1, 1 << 31, (1 << 31) + 4096, (1usize << 32) - 1, 1 << 32, (1usize << 32) + 7, (1usize << 32) + 70000, (1usize << 31) + 70_001][idx as usize];
+        let mut buf = match gen::lazy_zeroed(total) {
+            Some(b) => b,
+            None => {
+                ctx.unjudged("giant-buffer-not-allocatable");
+                return;
+            }
+        };
+        let dh = ADh { p: r.bytes(5), g: vec![2], ys: r.bytes(7) };
+        let ec = gen::ecdh(&mut r);
+        let sg = ASig { alg: Some((4, 3)), data: r.bytes(9) };
+        let so = ASig { alg: None, data: r.bytes(9) };
+        let encs: [(&'static str, Vec<u8>); 5] = [("parse_dh_params", enc(|w| dh.enc(w))), ("parse_ecdh_params", enc(|w| ec.enc(w))), ("parse_ec_parameters", enc(|w| ec.params.enc(w))), ("parse_digitally_signed", enc(|w| sg.enc(w))), ("parse_digitally_signed_old", enc(|w| so.enc(w)))];
+        for (k, (name, e)) in encs.iter().enumerate() {
+            buf[..e.len()].copy_from_slice(e);
+            let input = &buf[..];
+            let fp = |i: &[u8]| -> Option<(Vec<u8>, usize)> {
+                match k {
+                    0 => parse_dh_params(i).ok().map(|(rem, v)| (crate::visit::canon_of(&v), rem.len())),
+                    1 => parse_ecdh_params(i).ok().map(|(rem, v)| (crate::visit::canon_of(&v), rem.len())),
+                    2 => parse_ec_parameters(i).ok().map(|(rem, v)| (crate::visit::canon_of(&v), rem.len())),
+                    3 => parse_digitally_signed(i).ok().map(|(rem, v)| (crate::visit::canon_of(&v), rem.len())),
+                    _ => parse_digitally_signed_old(i).ok().map(|(rem, v)| (crate::visit::canon_of(&v), rem.len())),
+                }
+            };
+            let base = fp(e);
+            let got = ctx.guarded(name, e, || fp(input));
+            ctx.eval();
+            ctx.count("giant-trailing.cases");
+            ctx.shape(&("giant", *name, idx));
+            let want = base.map(|(c, _)| (c, total - e.len()));
+            if let Some(g) = got {
+                if want.is_none() {
+                    ctx.unjudged("giant-trailing: reference encoding alone not accepted");
+                } else if g != want {
+                    ctx.violation(
+                        format!("c13:{}:trailing-data-changes-the-result", name),
+                        json!({"parser": name, "encoding_len": e.len(), "buffer_len": total, "result": match &g { None => "rejected".to_string(), Some((_, rl)) => format!("accepted, remainder {}", rl) }, "input_hex": hex_short(e)}),
+                    );
+                }
+            }
+            for b in buf[..e.len()].iter_mut() {
+                *b = 0;
+            }
+        }
+    });
+
     // ------------------------------------------------ trailing data sized so that, at EVERY offset inside the structure, the
     // number of bytes still available is congruent to 0, 1 or 7 modulo 2^16 (availability computed in a
     // narrower integer type): value and remainder must be what they are without the trailing data
